@@ -390,3 +390,239 @@ Proof.
     + inversion H; subst i. rewrite get_set_ino, N.eqb_refl. apply pend_ino_fresh.
     + rewrite Hold; [now apply (k_pend_e _ _ _ _ _ C z)|]. exact (k_bnd_e _ _ _ _ _ C _ _ H).
 Qed.
+
+(* ================================================================ the phases of setMeta *)
+
+Lemma fapply_create_existing s n i : lookup (ents s) n = Some i ->
+  fapply s (OCreate n) = upd s i (IN [] (ddata (get_ino (inos s) i)) true).
+Proof. intro H. cbn [fapply]. now rewrite H. Qed.
+
+Lemma fapply_write s n d i : lookup (ents s) n = Some i ->
+  fapply s (OWrite n d) = upd s i (IN (vdata (get_ino (inos s) i) ++ d) (ddata (get_ino (inos s) i)) (itrunc (get_ino (inos s) i))).
+Proof. intro H. cbn [fapply]. now rewrite H. Qed.
+
+Lemma fapply_fsync s n i : lookup (ents s) n = Some i ->
+  fapply s (OFsync n) = upd s i (IN (vdata (get_ino (inos s) i)) (vdata (get_ino (inos s) i)) false).
+Proof. intro H. cbn [fapply]. now rewrite H. Qed.
+
+Lemma bak_not_current : s_CURRENT_bak <> s_CURRENT.
+Proof. unfold s_CURRENT_bak, s_CURRENT. congruence. Qed.
+
+Lemma bak_create s A B K i0 : clean s A B K i0 ->
+  clean (fapply s (OCreate s_CURRENT_bak)) A B K i0 /\ exists ib, lookup (ents (fapply s (OCreate s_CURRENT_bak))) s_CURRENT_bak = Some ib.
+Proof.
+  intro C. destruct (lookup (ents s) s_CURRENT_bak) as [i|] eqn:E.
+  - rewrite (fapply_create_existing _ _ _ E). split; [|exists i; exact E].
+    eapply clean_upd_other; [eassumption|apply bak_not_current|apply not_pend_bak|eassumption].
+  - destruct (clean_link_new _ _ _ _ _ s_CURRENT_bak C) as (C' & Hl & _); [apply bak_not_current|assumption|]. eauto.
+Qed.
+
+Lemma bak_write s A B K i0 ib d : clean s A B K i0 -> lookup (ents s) s_CURRENT_bak = Some ib ->
+  clean (fapply s (OWrite s_CURRENT_bak d)) A B K i0 /\ lookup (ents (fapply s (OWrite s_CURRENT_bak d))) s_CURRENT_bak = Some ib.
+Proof.
+  intros C E. rewrite (fapply_write _ _ _ _ E). split; [|exact E].
+  eapply clean_upd_other; [eassumption|apply bak_not_current|apply not_pend_bak|eassumption].
+Qed.
+
+Lemma bak_fsync s A B K i0 ib : clean s A B K i0 -> lookup (ents s) s_CURRENT_bak = Some ib ->
+  clean (fapply s (OFsync s_CURRENT_bak)) A B K i0 /\ lookup (ents (fapply s (OFsync s_CURRENT_bak))) s_CURRENT_bak = Some ib.
+Proof.
+  intros C E. rewrite (fapply_fsync _ _ _ E). split; [|exact E].
+  eapply clean_upd_other; [eassumption|apply bak_not_current|apply not_pend_bak|eassumption].
+Qed.
+
+Lemma pend_not_i0 s A B K i0 z j : clean s A B K i0 -> lookup (ents s) (pend_name z) = Some j -> j <> i0.
+Proof.
+  intros C E X. subst j. pose proof (k_inj _ _ _ _ _ C _ _ _ E (k_cur_e _ _ _ _ _ C)) as H.
+  now apply pend_name_not_current in H.
+Qed.
+
+Lemma p_create s A B K i0 z : clean s A B K i0 ->
+  exists j, clean (fapply s (OCreate (pend_name z))) A B K i0 /\
+            lookup (ents (fapply s (OCreate (pend_name z)))) (pend_name z) = Some j /\
+            vdata (get_ino (inos (fapply s (OCreate (pend_name z)))) j) = [].
+Proof.
+  intro C. destruct (lookup (ents s) (pend_name z)) as [j|] eqn:E.
+  - exists j. rewrite (fapply_create_existing _ _ _ E). split; [|split; [exact E|]].
+    + apply clean_upd; [assumption|eapply pend_not_i0; eassumption|]. intros _.
+      apply pend_ino_trunc. exact (k_pend_e _ _ _ _ _ C z j E).
+    + unfold upd. cbn [inos]. now rewrite get_set_ino, N.eqb_refl.
+  - exists (next s). destruct (clean_link_new _ _ _ _ _ (pend_name z) C) as (C' & Hl & Hi);
+      [apply pend_name_not_current|assumption|]. split; [assumption|split; [assumption|]]. now rewrite Hi.
+Qed.
+
+Lemma p_write s A B K i0 z j : clean s A B K i0 -> int64_ok (fd_num B) = true ->
+  lookup (ents s) (pend_name z) = Some j -> vdata (get_ino (inos s) j) = [] ->
+  let s' := fapply s (OWrite (pend_name z) (meta_content B)) in
+  clean s' A B K i0 /\ lookup (ents s') (pend_name z) = Some j /\ vdata (get_ino (inos s') j) = meta_content B.
+Proof.
+  intros C Hi E Hv. cbn zeta. rewrite (fapply_write _ _ _ _ E). split; [|split; [exact E|]].
+  - apply clean_upd; [assumption|eapply pend_not_i0; eassumption|]. intros _.
+    apply pend_ino_write; [exact (k_pend_e _ _ _ _ _ C z j E)|assumption|assumption].
+  - unfold upd. cbn [inos]. rewrite get_set_ino, N.eqb_refl. cbn [vdata]. now rewrite Hv.
+Qed.
+
+Lemma p_fsync s A B K i0 z j : clean s A B K i0 -> int64_ok (fd_num B) = true ->
+  lookup (ents s) (pend_name z) = Some j -> vdata (get_ino (inos s) j) = meta_content B ->
+  let s' := fapply s (OFsync (pend_name z)) in
+  clean s' A B K i0 /\ lookup (ents s') (pend_name z) = Some j /\
+  get_ino (inos s') j = IN (meta_content B) (meta_content B) false.
+Proof.
+  intros C Hi E Hv. cbn zeta. rewrite (fapply_fsync _ _ _ E). split; [|split; [exact E|]].
+  - apply clean_upd; [assumption|eapply pend_not_i0; eassumption|]. intros _. rewrite Hv. now apply pend_ino_synced.
+  - unfold upd. cbn [inos]. rewrite get_set_ino, N.eqb_refl. now rewrite Hv.
+Qed.
+
+(* after the rename, before the directory is synced: CURRENT is the old or the new file *)
+Lemma rename_good s A B K i0 z j :
+  clean s A B K i0 -> In (gen_name A) K -> In (gen_name B) K ->
+  lookup (ents s) (pend_name z) = Some j -> get_ino (inos s) j = IN (meta_content B) (meta_content B) false ->
+  good (fapply s (ORename (pend_name z) s_CURRENT)) A B.
+Proof.
+  intros C HA HB E Hj mask. cbn [fapply]. rewrite E. cbn [pdir dents inos]. cbn zeta.
+  destruct (image_ents_split (pdir s) [DRename (pend_name z) s_CURRENT j] mask (dents s)) as (m1 & m2 & ->).
+  destruct (Jinv_image A B K (inos s) i0 (pdir s) m1 (dents s) (k_ops _ _ _ _ _ C) (clean_Jinv _ _ _ _ _ C)) as (Hc & Hk & Hp).
+  set (e := image_ents m1 (pdir s) (dents s)) in *.
+  assert (forall sel, crash_data sel (get_ino (inos s) i0) = meta_content A) as Hd0
+    by (intro sel; rewrite (k_cur_i _ _ _ _ _ C); apply synced_data).
+  destruct m2 as [|[|] m2]; cbn [image_ents dapply].
+  - split; [exists i0; split; [exact Hc|intro; left; apply Hd0]|]. auto.
+  - split; [|split; [|split]].
+    + exists j. split; [now rewrite lookup_set_at, beq_refl|]. intro sel. right. rewrite Hj. apply synced_data.
+    + apply has_lookup. rewrite lookup_set_at. destruct (beq s_CURRENT (gen_name A)); [discriminate|].
+      rewrite lookup_remove_at, beq_neq; [apply has_lookup; auto|].
+      intro X. apply (k_Knf _ _ _ _ _ C _ HA). right. right. eauto.
+    + apply has_lookup. rewrite lookup_set_at. destruct (beq s_CURRENT (gen_name B)); [discriminate|].
+      rewrite lookup_remove_at, beq_neq; [apply has_lookup; auto|].
+      intro X. apply (k_Knf _ _ _ _ _ C _ HB). right. right. eauto.
+    + intros z' i. rewrite lookup_set_at, (beq_neq s_CURRENT (pend_name z')) by apply not_pend_current.
+      rewrite lookup_remove_at. destruct (beq (pend_name z) (pend_name z')); [discriminate|]. apply Hp.
+  - split; [exists i0; split; [exact Hc|intro; left; apply Hd0]|]. auto.
+Qed.
+
+Lemma pend_ino_settle A B x : pend_ino A B x -> (fd_num A <= fd_num B)%Z -> pend_ino B B x.
+Proof. intros H Hle sel. eapply harmless_settle; [apply H|assumption]. Qed.
+
+(* the directory sync at the end of setMeta settles on B *)
+Lemma syncdir_clean s A B K i0 z j :
+  clean s A B K i0 -> (fd_num A <= fd_num B)%Z ->
+  lookup (ents s) (pend_name z) = Some j -> get_ino (inos s) j = IN (meta_content B) (meta_content B) false ->
+  clean (fapply (fapply s (ORename (pend_name z) s_CURRENT)) OSyncDir) B B K j.
+Proof.
+  intros C Hle E Hj. cbn [fapply]. rewrite E. cbn [fapply ents dents pdir inos next].
+  assert (forall m i, lookup (rename_at (ents s) (pend_name z) s_CURRENT) m = Some i ->
+            (m = s_CURRENT /\ i = j) \/ (m <> s_CURRENT /\ m <> pend_name z /\ lookup (ents s) m = Some i)) as Hr.
+  { intros m i. rewrite (lookup_rename_at _ _ _ _ _ E). beq_case' s_CURRENT m; [intro H; inversion H; auto|].
+    beq_case' (pend_name z) m; [discriminate|]. intro H. right. repeat split; try assumption.
+    - intro X. subst m. now rewrite beq_refl in E0.
+    - intro X. subst m. now rewrite beq_refl in E1. }
+  assert (forall a b i, lookup (rename_at (ents s) (pend_name z) s_CURRENT) a = Some i ->
+                        lookup (rename_at (ents s) (pend_name z) s_CURRENT) b = Some i -> a = b) as Hinj.
+  { intros a b i Ha Hb. apply Hr in Ha, Hb.
+    destruct Ha as [[-> ->]|(Ha1 & Ha2 & Ha3)], Hb as [[-> Hb]|(Hb1 & Hb2 & Hb3)]; try reflexivity.
+    - exfalso. apply Hb2. exact (k_inj _ _ _ _ _ C _ _ _ Hb3 E).
+    - subst i. exfalso. apply Ha2. exact (k_inj _ _ _ _ _ C _ _ _ Ha3 E).
+    - exact (k_inj _ _ _ _ _ C _ _ _ Ha3 Hb3). }
+  assert (forall m i, lookup (rename_at (ents s) (pend_name z) s_CURRENT) m = Some i -> i < next s) as Hb.
+  { intros m i H. apply Hr in H. destruct H as [[_ ->]|(_ & _ & H)]; eapply (k_bnd_e _ _ _ _ _ C); eassumption. }
+  constructor; cbn [ents dents pdir inos next]; try assumption.
+  - intros n i [].
+  - intros n i Hn Hl. split; [|intros z' []]. intros z' Hz. apply (Hn z'). exact (Hinj _ _ _ Hl Hz).
+  - constructor.
+  - now rewrite (lookup_rename_at _ _ _ _ _ E), beq_refl.
+  - now rewrite (lookup_rename_at _ _ _ _ _ E), beq_refl.
+  - intros k Hk. apply has_lookup. rewrite (lookup_rename_at _ _ _ _ _ E). destruct (beq s_CURRENT k); [discriminate|].
+    rewrite beq_neq; [apply has_lookup; now apply (k_keep_e _ _ _ _ _ C)|].
+    intro X. apply (k_Knf _ _ _ _ _ C _ Hk). right. right. eauto.
+  - intros k Hk. apply has_lookup. rewrite (lookup_rename_at _ _ _ _ _ E). destruct (beq s_CURRENT k); [discriminate|].
+    rewrite beq_neq; [apply has_lookup; now apply (k_keep_e _ _ _ _ _ C)|].
+    intro X. apply (k_Knf _ _ _ _ _ C _ Hk). right. right. eauto.
+  - apply C.
+  - intros z' i H. apply Hr in H. destruct H as [[H _]|(_ & _ & H)]; [now apply pend_name_not_current in H|].
+    eapply pend_ino_settle; [exact (k_pend_e _ _ _ _ _ C z' i H)|assumption].
+  - intros z' i H. apply Hr in H. destruct H as [[H _]|(_ & _ & H)]; [now apply pend_name_not_current in H|].
+    eapply pend_ino_settle; [exact (k_pend_e _ _ _ _ _ C z' i H)|assumption].
+Qed.
+
+(* ================================================================ the switch *)
+
+Lemma pend_ino_open A B x : pend_ino A A x -> pend_ino A B x.
+Proof. intros H sel. apply harmless_open, H. Qed.
+
+Lemma clean_open s A B K i0 : clean s A A K i0 -> clean s A B K i0.
+Proof.
+  intro C. constructor; try apply C.
+  - apply Forall_forall. intros o Ho. pose proof (proj1 (Forall_forall _ _) (k_ops _ _ _ _ _ C) o Ho) as Hok.
+    destruct o as [n j|a b j|n]; cbn [okop] in *; [|exact Hok|exact Hok].
+    destruct Hok as [H1 H2]. split; [exact H1|]. intros z Hz. apply pend_ino_open. now apply (H2 z).
+  - intros z i H. apply pend_ino_open. exact (k_pend_d _ _ _ _ _ C z i H).
+  - intros z i H. apply pend_ino_open. exact (k_pend_e _ _ _ _ _ C z i H).
+Qed.
+
+Lemma vol_cur s A B K i0 : clean s A B K i0 -> lookup (vol_view s) s_CURRENT = Some (meta_content A).
+Proof.
+  intro C. unfold vol_view. rewrite lookup_view_of, (k_cur_e _ _ _ _ _ C). cbn [option_map].
+  now rewrite (k_cur_i _ _ _ _ _ C).
+Qed.
+
+Lemma meta_content_inj A B : int64_ok (fd_num A) = true -> int64_ok (fd_num B) = true ->
+  meta_content A = meta_content B -> A = B.
+Proof. intros HA HB E. apply check_meta_content in HA, HB. rewrite E in HA. congruence. Qed.
+
+Definition switch_ops (A B : fdesc) : list fsop :=
+  [OCreate s_CURRENT_bak; OWrite s_CURRENT_bak (meta_content A); OFsync s_CURRENT_bak;
+   OCreate (pend_name (fd_num B)); OWrite (pend_name (fd_num B)) (meta_content B); OFsync (pend_name (fd_num B));
+   ORename (pend_name (fd_num B)) s_CURRENT; OSyncDir].
+
+Lemma set_meta_ops_switch s A B K i0 : clean s A A K i0 ->
+  int64_ok (fd_num A) = true -> int64_ok (fd_num B) = true -> A <> B ->
+  set_meta_ops (vol_view s) B = switch_ops A B.
+Proof.
+  intros C HA HB Hne. unfold set_meta_ops. rewrite (vol_cur _ _ _ _ _ C).
+  rewrite beq_neq; [reflexivity|]. intro E. apply Hne. now apply meta_content_inj.
+Qed.
+
+Theorem set_meta_crash_atomic s A B K i0 :
+  clean s A A K i0 -> In (gen_name A) K -> In (gen_name B) K ->
+  (fd_num A < fd_num B)%Z -> int64_ok (fd_num A) = true -> int64_ok (fd_num B) = true ->
+  (forall k v, crash_image (fapply_all s (firstn k (set_meta_ops (vol_view s) B))) v ->
+               get_meta_result v = GOk A \/ get_meta_result v = GOk B) /\
+  (exists j, clean (set_meta s B) B B K j) /\
+  (forall v, crash_image (set_meta s B) v -> get_meta_result v = GOk B).
+Proof.
+  intros C0 HKA HKB Hlt HiA HiB.
+  assert (A <> B) as Hne by (intro X; subst; lia).
+  assert (fd_num A <= fd_num B)%Z as Hle by lia.
+  unfold set_meta. rewrite (set_meta_ops_switch _ _ _ _ _ C0 HiA HiB Hne).
+  pose proof (clean_open _ _ B _ _ C0) as C.
+  set (p := fd_num B).
+  (* the states *)
+  destruct (bak_create _ _ _ _ _ C) as (C1 & ib & E1). set (s1 := fapply s (OCreate s_CURRENT_bak)) in *.
+  destruct (bak_write _ _ _ _ _ ib (meta_content A) C1 E1) as (C2 & E2). set (s2 := fapply s1 (OWrite s_CURRENT_bak (meta_content A))) in *.
+  destruct (bak_fsync _ _ _ _ _ ib C2 E2) as (C3 & E3). set (s3 := fapply s2 (OFsync s_CURRENT_bak)) in *.
+  destruct (p_create _ _ _ _ _ p C3) as (j & C4 & E4 & V4). set (s4 := fapply s3 (OCreate (pend_name p))) in *.
+  destruct (p_write _ _ _ _ _ p j C4 HiB E4 V4) as (C5 & E5 & V5). set (s5 := fapply s4 (OWrite (pend_name p) (meta_content B))) in *.
+  destruct (p_fsync _ _ _ _ _ p j C5 HiB E5 V5) as (C6 & E6 & V6). set (s6 := fapply s5 (OFsync (pend_name p))) in *.
+  pose proof (rename_good _ _ _ _ _ p j C6 HKA HKB E6 V6) as G7. set (s7 := fapply s6 (ORename (pend_name p) s_CURRENT)) in *.
+  pose proof (syncdir_clean _ _ _ _ _ p j C6 Hle E6 V6) as C8. fold s7 in C8. set (s8 := fapply s7 OSyncDir) in *.
+  assert (forall t, clean t A B K i0 -> forall v, crash_image t v -> get_meta_result v = GOk A \/ get_meta_result v = GOk B) as HG.
+  { intros t Ct v Hv. eapply good_images; [eapply clean_good; eassumption| | | |]; eassumption. }
+  assert (forall v, crash_image s8 v -> get_meta_result v = GOk B) as H8.
+  { intros v Hv. assert (good s8 B B) as G by (eapply clean_good; eassumption).
+    destruct (good_images _ _ _ _ G (Z.le_refl _) HiB HiB Hv); assumption. }
+  assert (fapply_all s (switch_ops A B) = s8) as Hall by reflexivity.
+  split; [|split].
+  - intros k v. unfold switch_ops.
+    destruct k as [|[|[|[|[|[|[|[|k]]]]]]]]; cbn [firstn fapply_all fold_left]; fold s1 s2 s3 s4 s5 s6 s7 s8.
+    + now apply HG.
+    + now apply HG.
+    + now apply HG.
+    + now apply HG.
+    + now apply HG.
+    + now apply HG.
+    + now apply HG.
+    + intro Hv. eapply good_images; eassumption.
+    + rewrite firstn_nil. cbn [fold_left]. intro Hv. right. now apply H8.
+  - exists j. rewrite Hall. exact C8.
+  - rewrite Hall. exact H8.
+Qed.
